@@ -67,6 +67,8 @@ func init() {
 			withAnchors(c, func(a *serverAnchors) {
 				ruleMaxAge(c, a, nil)
 				rulePassMethods(c, a)
+				ruleContextKeys(c, a)
+				ruleResponder(c, a)
 				ruleCacheMiddleware(c, a, set("pass-methods", "forward-once", "label", "hit-does-not-forward", "store-gate", "completion-only-by-fetcher"))
 				ruleProxyMiddleware(c, a, set("forward-once", "lifetime-plumbing", "upstream-error-propagates"))
 			})
@@ -79,6 +81,9 @@ func init() {
 				ruleCompletionPaths(c, a.cacheA, set("expiry-value", "ttl-positive", "no-wrap", "stores-response"))
 				ruleLockedWrapper(c, a.cacheA)
 				ruleCacheMiddleware(c, a, set("hit-age", "hit-serves-stored", "store-gate"))
+				ruleAge(c, a.cacheA)
+				ruleResponder(c, a)
+				ruleContextKeys(c, a)
 			})
 		})
 	register("C07",
@@ -89,6 +94,7 @@ func init() {
 				ruleCompletionPaths(c, a.cacheA, set("completes-on-every-path", "ttl-positive", "expiry-value"))
 				ruleCacheMiddleware(c, a, set("ticket-discharge", "hit-for-pass-period", "completion-only-by-fetcher", "forward-once"))
 				ruleProxyMiddleware(c, a, set("withheld-on-fetch", "lifetime-plumbing"))
+				ruleConverters(c)
 			})
 		})
 	register("C08",
@@ -100,6 +106,8 @@ func init() {
 				ruleEncodedFresh(c)
 				ruleLayout(c)
 				ruleTruncation(c)
+				ruleStoreOpenNonFatal(c)
+				ruleStoreSiblings(c)
 			})
 		})
 	register("C10",
@@ -110,6 +118,9 @@ func init() {
 				ruleLookup(c, a.cacheA, set("state-determined", "invariant-expiry", "invariant-waiters", "no-exit-unknown", "load-only-when-unknown"))
 				ruleCompletionPaths(c, a.cacheA, set("completes-on-every-path"))
 				ruleDrainShape(c, a.cacheA)
+				rulePurge(c, a.cacheA)
+				ruleStoreSiblings(c)
+				ruleStoreOpenNonFatal(c)
 			})
 		})
 	register("C06",
@@ -143,6 +154,7 @@ func init() {
 			withAnchors(c, func(a *serverAnchors) {
 				rulePurge(c, a.cacheA)
 				rulePurgeAll(c)
+				ruleAdminPurge(c)
 				ruleShardFunction(c)
 				ruleEntryWriters(c, a.cacheA)
 			})
@@ -161,6 +173,8 @@ func init() {
 				ruleLZ4Bound(c)
 				ruleProxyMiddleware(c, a, set("response-built", "location-edits-order"))
 				ruleCacheMiddleware(c, a, set("hit-serves-stored"))
+				ruleResponder(c, a)
+				ruleContextKeys(c, a)
 			})
 		})
 	register("C13",
@@ -171,6 +185,7 @@ func init() {
 				ruleThreshold(c)
 				rulePrecompress(c, a)
 				ruleCompressVariants(c)
+				ruleCodecLevels(c)
 				ruleProxyMiddleware(c, a, set("server-settings"))
 			})
 		})
@@ -178,6 +193,7 @@ func init() {
 		"Decides stream finalisation order (the compressing writer is closed on every successful path and the buffer is not read before that), level clamping for every int (the value reaching gzip.NewWriterLevel is in [-2,9], brotli's in [0,11]), propagation of every codec library error, the lz4 destination bound (a short-buffer failure is final only at 255 x input) and the decoder dispatch. That the codecs are exact inverses for every byte string and never panic on malformed input is numeric behaviour of third-party libraries: not applicable to static analysis.",
 		nil, func(c *Ctx) {
 			ruleEncoders(c)
+			ruleCodecLevels(c)
 			ruleLZ4Bound(c)
 			ruleDecoderErrors(c)
 			ruleDecoderDispatch(c)
@@ -210,6 +226,7 @@ func init() {
 				ruleProxyMiddleware(c, a, set("withheld-on-fetch", "restore", "accept-encoding-override", "location-edits-order", "lifetime-plumbing", "next-restored", "response-built", "forward-once", "upstream-error-propagates"))
 				ruleCacheMiddleware(c, a, set("completion-only-by-fetcher", "store-gate"))
 				ruleRequestWrites(c)
+				ruleLocationEdits(c)
 				ruleChainOrder(c, a)
 			})
 		})
@@ -217,6 +234,7 @@ func init() {
 		"Decides that the two ways a configuration reaches a running object agree: NewServer and Update compute the same value from the option for every field both assign (only the documented restart-only fields are construction-only); main.update applies every section of the configuration just read and then starts the servers; every registry's reset removes names that disappeared (or replaces the collection wholesale); surviving caches are kept; every configured upstream and compress profile is replaced by one freshly built from the new options; only instances no longer in service are destroyed; removed servers are closed. Differential behaviour of two live processes and in-flight requests during the swap are not decided.",
 		nil, func(c *Ctx) {
 			ruleCtorUpdateAgree(c)
+			ruleConverters(c)
 			ruleSectionsApplied(c)
 			ruleResetPrunes(c)
 			ruleKeepCache(c)
@@ -242,6 +260,7 @@ func init() {
 			ruleWriteValidates(c)
 			ruleYAMLTable(c)
 			ruleValidatorsAgree(c)
+			ruleConverters(c)
 		})
 	register("C20",
 		"Decides lock discipline for all shared mutable state reachable from main (request, purge, admin and reload paths): every access to a guarded field (entry state, shard LRU, server settings, location list) holds the owner's lock in a sufficient mode, locally or through every caller; every lock is released on every return; the lock-order graph is acyclic; fields read without a lock are written only while their object is private to its constructor; a published response is never written; memory from a sync.Pool never escapes into keys, bodies or records; the entry lookup is made under the write lock and a woken waiter re-reads under the lock. Race-detector stress and 'the process does not crash' over schedules are not applicable to static analysis.",
